@@ -168,23 +168,35 @@ unsafe impl<'gc, T: Collect<'gc>> DynCollect<'gc> for T {
 #[doc(hidden)]
 #[macro_export]
 macro_rules! __dyn_collect {
-    (<$($params:tt),+ $(,)*> $trait:ty $(where $($bounds:tt)+)?) => {
-        unsafe impl<'gc, $($params),*> $crate::Collect<'gc> for $trait
+    // The type must be spelled as a trait object (`dyn ...`). For any other type the generated impl
+    // would be satisfied circularly through the blanket `DynCollect` impl for sized `Collect` types,
+    // handing out an `unsafe impl Collect` for an arbitrary type without an `unsafe` block.
+    (<$($params:tt),+ $(,)*> dyn $($rest:tt)+) => {
+        $crate::__dyn_collect!(@split [$($params),+] [dyn] $($rest)+);
+    };
+    (dyn $($rest:tt)+) => {
+        $crate::__dyn_collect!(@split [] [dyn] $($rest)+);
+    };
+    // Split the remaining tokens into the trait object type and an optional trailing where clause.
+    (@split [$($params:tt),*] [$($trait:tt)+] where $($bounds:tt)+) => {
+        $crate::__dyn_collect!(@emit [$($params),*] [$($trait)+] [$($bounds)+]);
+    };
+    (@split [$($params:tt),*] [$($trait:tt)+] $next:tt $($rest:tt)*) => {
+        $crate::__dyn_collect!(@split [$($params),*] [$($trait)+ $next] $($rest)*);
+    };
+    (@split [$($params:tt),*] [$($trait:tt)+]) => {
+        $crate::__dyn_collect!(@emit [$($params),*] [$($trait)+] []);
+    };
+    (@emit [$($params:tt),*] [$($trait:tt)+] [$($bounds:tt)*]) => {
+        unsafe impl<'gc, $($params),*> $crate::Collect<'gc> for $($trait)+
         where
-            $($($bounds)+)*
+            $($bounds)*
         {
             fn trace<_T: $crate::collect::Trace<'gc>>(&self, cc: &mut _T) {
                 $crate::collect::DynCollect::dyn_trace(self, cc);
             }
         }
     };
-    ($trait:ty) => {
-        unsafe impl<'gc> $crate::Collect<'gc> for $trait {
-            fn trace<_T: $crate::collect::Trace<'gc>>(&self, cc: &mut _T) {
-                $crate::collect::DynCollect::dyn_trace(self, cc);
-            }
-        }
-    }
 }
 
 #[doc(inline)]
